@@ -141,6 +141,44 @@ def build_variant(ctx, tag, features=None, rustflags=None):
     return os.path.join(tdir, "release", "vh")
 
 
+def num_tokens(hexs):
+    """the number tokens of a JSON text (outside strings), in order"""
+    try:
+        b = bytes.fromhex(hexs) if hexs != "-" else b""
+    except ValueError:
+        return None
+    out, i, n = [], 0, len(b)
+    while i < n:
+        c = b[i]
+        if c == 0x22:
+            i += 1
+            while i < n and b[i] != 0x22:
+                i += 2 if b[i] == 0x5c else 1
+            i += 1
+        elif c == 0x2d or 0x30 <= c <= 0x39:
+            j = i + 1
+            while j < n and (0x30 <= b[j] <= 0x39 or b[j] in b".eE+-"):
+                j += 1
+            out.append(b[i:j].decode("ascii"))
+            i = j
+        else:
+            i += 1
+    return out
+
+
+def same_number(src, out):
+    """C06: an integer within u64 / i64 keeps its exact digits, every other number its exact f64 value (sign of zero included)"""
+    import struct
+    if re.fullmatch(r"-?[0-9]+", src) and src != "-0":
+        v = int(src)
+        if (0 <= v < 2 ** 64) or (-2 ** 63 <= v < 0):
+            return out == src
+    try:
+        return struct.pack("<d", float(src)) == struct.pack("<d", float(out))
+    except (ValueError, OverflowError):
+        return False
+
+
 def shape_of(hexs):
     """text with every number token outside strings replaced by '#'"""
     try:
@@ -1465,7 +1503,7 @@ class C06(Prop):
             "outputs are compared byte for byte with the Lean serializer model applied to the specification's tree (members in source order with "
             "duplicates; stably sorted by key in the sort_keys build), the default-mode outputs with the same text modulo number tokens; "
             "non-trivial = the document contains a container or a string")
-    trusted = ["float printing itself (shortest round-trip digits) is C08's subject: in default mode number tokens are compared by value after re-parsing"]
+    trusted = ["float printing itself (shortest round-trip digits) is C08's subject: in default mode every number token written is compared by VALUE with the source literal (exact digits for integers within u64 / i64, f64 bits otherwise; the values are read with Python's correctly rounded float())"]
     assumptions = ["inputs are well-formed JSON (others are skipped after checking that both sides reject)"]
 
     def explore(self, ctx, res):
@@ -1524,6 +1562,15 @@ class C06(Prop):
                     res.oracle_failures.append(dict(key=f"C06|{tag}|raw-pretty-output-differs", case=case, detail=f"impl {J.get('rawpretty','')[:160]} spec {want_pretty[:160] if want_pretty else None}"))
                 if shape_of(J.get("s", "")) != shape_of(want_raw or ""):
                     res.oracle_failures.append(dict(key=f"C06|{tag}|output-structure-differs", case=case, detail=f"impl {J.get('s','')[:160]} spec(raw) {want_raw[:160] if want_raw else None}"))
+                # "integers keep their exact digits, floats keep their exact f64 value": token by token against the source's literals
+                if not sorted_:
+                    for fld_out, fld_src in (("s", want_raw), ("pretty", want_pretty)):
+                        a, b2 = num_tokens(J.get(fld_out, "")), num_tokens(fld_src or "")
+                        if a is not None and b2 is not None and len(a) == len(b2):
+                            for x, y in zip(a, b2):
+                                if not same_number(y, x):
+                                    res.oracle_failures.append(dict(key=f"C06|{tag}|number-value-changed", case=case, detail=f"literal {y} written as {x}"))
+                                    break
                 if shape_of(J.get("pretty", "")) != shape_of(want_pretty or ""):
                     res.oracle_failures.append(dict(key=f"C06|{tag}|pretty-structure-differs", case=case, detail=f"impl {J.get('pretty','')[:160]} spec {want_pretty[:160] if want_pretty else None}"))
                 res.distribution[f"build:{tag}"] += 1
